@@ -390,6 +390,39 @@ KERNELS = [
     ('WhenAll_front', None, ['yaclib/async/when_all.hpp'], 'yaclib::WhenAll', 'async/when_all.hpp', 'WhenAll', 'template'),
     ('WhenAny_front', None, ['yaclib/async/when_any.hpp'], 'yaclib::WhenAny', 'async/when_any.hpp', 'WhenAny', 'template'),
     ('Join_front', None, ['yaclib/async/join.hpp'], 'yaclib::Join', 'async/join.hpp', 'Join', 'template'),
+    # ---- coroutines: promise type and awaiters (C13)  (AwaitAwaiterBase_await_ready, AtomicCounter_SubEqual, BaseCore_* are above)
+    ('Destroy_await_suspend', None, ['yaclib/coro/future.hpp'], 'yaclib::detail::Destroy', 'promise_type.hpp', 'await_suspend', 'template'),
+    ('PromiseType_initial_suspend', None, ['yaclib/coro/future.hpp'], 'yaclib::detail::PromiseType', 'promise_type.hpp', 'initial_suspend', 0),
+    ('PromiseType_unhandled_exception', None, ['yaclib/coro/future.hpp'], 'yaclib::detail::PromiseType', 'promise_type.hpp', 'unhandled_exception', 0),
+    ('PromiseType_return_value', None, ['yaclib/coro/future.hpp'], 'yaclib::detail::PromiseType', 'promise_type.hpp', 'return_value', 'template'),
+    ('PromiseType_Call', None, ['yaclib/coro/future.hpp'], 'yaclib::detail::PromiseType', 'promise_type.hpp', 'Call', 0),
+    ('PromiseType_Drop', None, ['yaclib/coro/future.hpp'], 'yaclib::detail::PromiseType', 'promise_type.hpp', 'Drop', 0),
+    ('PromiseType_Impl', None, ['yaclib/coro/future.hpp'], 'yaclib::detail::PromiseType', 'promise_type.hpp', 'Impl', 0),
+    ('PromiseType_Here', None, ['yaclib/coro/future.hpp'], 'yaclib::detail::PromiseType', 'promise_type.hpp', 'Here', 0),
+    ('PromiseType_Next', None, ['yaclib/coro/future.hpp'], 'yaclib::detail::PromiseType', 'promise_type.hpp', 'Next', 0),
+    ('PromiseTypeDeleter_Delete', None, ['yaclib/coro/future.hpp'], 'yaclib::detail::PromiseTypeDeleter', 'promise_type.hpp', 'Delete', 'template'),
+    ('AwaitAwaiter_await_suspend', None, ['yaclib/coro/await.hpp'], 'yaclib::detail::AwaitAwaiter', 'await_awaiter.hpp', 'await_suspend', 'template'),
+    ('AwaitAwaiter_Call', None, ['yaclib/coro/await.hpp'], 'yaclib::detail::AwaitAwaiter', 'await_awaiter.hpp', 'Call', 0),
+    ('AwaitEvent_Impl', None, ['yaclib/coro/await.hpp'], 'yaclib::detail::AwaitEvent', 'await_awaiter.hpp', 'Impl', 'template'),
+    ('MultiAwaitAwaiter_await_ready', None, ['yaclib/coro/await.hpp'], 'yaclib::detail::MultiAwaitAwaiter', 'await_awaiter.hpp', 'await_ready', 0),
+    ('MultiAwaitAwaiter_await_suspend', None, ['yaclib/coro/await.hpp'], 'yaclib::detail::MultiAwaitAwaiter', 'await_awaiter.hpp', 'await_suspend', 'template'),
+    ('AwaitSingleAwaiter_await_ready', None, ['yaclib/coro/await.hpp'], 'yaclib::detail::AwaitSingleAwaiter', 'await_awaiter.hpp', 'await_ready', 0),
+    ('AwaitSingleAwaiter_await_suspend', None, ['yaclib/coro/await.hpp'], 'yaclib::detail::AwaitSingleAwaiter', 'await_awaiter.hpp', 'await_suspend', 'template'),
+    ('AwaitSingleAwaiter_await_resume_unique', None, ['yaclib/coro/await.hpp'], 'yaclib::detail::AwaitSingleAwaiter', 'await_awaiter.hpp', 'await_resume', 0),
+    ('AwaitSingleAwaiter_await_resume_shared', None, ['yaclib/coro/await.hpp'], 'yaclib::detail::AwaitSingleAwaiter', 'await_awaiter.hpp', 'await_resume', 1),
+    ('TransferAwaiter_await_suspend', None, ['yaclib/coro/await.hpp'], 'yaclib::detail::TransferAwaiter', 'await_awaiter.hpp', 'await_suspend', 'template'),
+    ('TransferSingleAwaiter_await_suspend', None, ['yaclib/coro/await.hpp'], 'yaclib::detail::TransferSingleAwaiter', 'await_awaiter.hpp', 'await_suspend', 'template'),
+    ('TransferSingleAwaiter_await_resume', None, ['yaclib/coro/await.hpp'], 'yaclib::detail::TransferSingleAwaiter', 'await_awaiter.hpp', 'await_resume', 0),
+    ('AwaitOnEvent_Impl', None, ['yaclib/coro/await_on.hpp'], 'yaclib::detail::AwaitOnEvent', 'await_on_awaiter.hpp', 'Impl', 'template'),
+    ('AwaitOnAwaiter_await_suspend', None, ['yaclib/coro/await_on.hpp'], 'yaclib::detail::AwaitOnAwaiter', 'await_on_awaiter.hpp', 'await_suspend', 'template'),
+    ('MultiAwaitOnAwaiter_await_suspend', None, ['yaclib/coro/await_on.hpp'], 'yaclib::detail::MultiAwaitOnAwaiter', 'await_on_awaiter.hpp', 'await_suspend', 'template'),
+    ('OnAwaiter_await_suspend', None, ['yaclib/coro/on.hpp'], 'yaclib::detail::OnAwaiter', 'on_awaiter.hpp', 'await_suspend', 'template'),
+    ('Yield_await_suspend', None, ['yaclib/coro/yield.hpp', 'yaclib/coro/future.hpp'], 'yaclib::detail::Yield', 'yield.hpp', 'await_suspend', 'template'),
+    ('CurrentAwaiter_await_suspend', None, ['yaclib/coro/current_executor.hpp', 'yaclib/coro/future.hpp'], 'yaclib::detail::CurrentAwaiter', 'current_executor.hpp', 'await_suspend', 'template'),
+    ('CurrentAwaiter_await_resume', None, ['yaclib/coro/current_executor.hpp', 'yaclib/coro/future.hpp'], 'yaclib::detail::CurrentAwaiter', 'current_executor.hpp', 'await_resume', 0),
+    ('SetCallbacksStatic', None, ['yaclib/coro/await.hpp'], 'yaclib::detail::SetCallbacksStatic', 'shared_event.hpp', 'SetCallbacksStatic', 'template'),
+    ('SetCallbacksDynamic', None, ['yaclib/coro/await.hpp'], 'yaclib::detail::SetCallbacksDynamic', 'shared_event.hpp', 'SetCallbacksDynamic', 'template'),
+    ('EventHelperCallback_Here', None, ['yaclib/coro/await.hpp'], 'yaclib::detail::EventHelperCallback', 'shared_event.hpp', 'Here', 0),
 ]
 
 
